@@ -10,6 +10,7 @@ from props import _engineb
 
 ID = "C06"
 LEVEL = "other"
+REPLAY = "replay/engineb_beyond.py"      # ./check --replay of a side-check record (tools/replay_one.py)
 
 BOUNDS = ("Hamiltonian: N = 1..4 atoms, every zero/non-zero phase pattern, every interaction sparsity pattern for "
           "N <= 3 and two patterns at N = 4 (thorough: all 64 patterns at N = 4, all 32 phase patterns x {all pairs, "
@@ -55,6 +56,8 @@ SPEC = dict(
         "the literal 0. NOT covered: N beyond the bounds (the property quantifies to N = 8), floating-point rounding, "
         "a real GPU (the batched branch is run on the shim with is_cpu forced False), RydbergHamiltonian.expect / "
         "RydbergLindbladian.expect (see C13)."),
+    # bounded, sampled complement on real torch: the same harness cases at sizes beyond the symbolic bound, random values
+    native_falsifier="replay/engineb_beyond.py",
     controls=CONTROLS,
     quick_controls=QUICK_CONTROLS,
     exhaustive=False,
